@@ -49,6 +49,9 @@ def two : α := ((2 : Nat) : α)
 /-- `0.5` -/
 def half : α := (1 : α) / two
 
+/-- `distributions::xlogy`: `if c == 0. { 0. } else { c * x.ln() }` (`0 · ln 0 = 0`). -/
+def xlogy (c x : α) : α := if c == 0 then 0 else c * Transc.ln x
+
 /-- `functions::beta`: `gamma(a) * gamma(b) / gamma(a + b)`. -/
 def betaOf (F : Fns α) (a b : α) : α := F.gamma a * F.gamma b / F.gamma (a + b)
 
@@ -73,10 +76,10 @@ end Normal
 namespace Gamma
 /-- `Gamma::new` panics iff `alpha <= 0. || beta <= 0.` -/
 def valid (alpha beta : α) : Bool := !(decide (alpha ≤ 0) || decide (beta ≤ 0))
-/-- `if x <= 0. { 0. } else { β.powf(α) / gamma(α) * x.powf(α - 1.) * (-β * x).exp() }` -/
+/-- `if x <= 0. { 0. } else { (α * β.ln() - ln_gamma(α) + (α - 1.) * x.ln() - β * x).exp() }` (log space since F47) -/
 def pdf (F : Fns α) (alpha beta x : α) : α :=
   if x ≤ 0 then 0
-  else ((Transc.pow beta alpha / F.gamma alpha) * Transc.pow x (alpha - 1)) * Transc.exp ((-beta) * x)
+  else Transc.exp ((((alpha * Transc.ln beta) - F.lnGamma alpha) + (alpha - 1) * Transc.ln x) - beta * x)
 def mean (alpha beta : α) : α := alpha / beta
 def var (alpha beta : α) : α := alpha / powi beta 2
 end Gamma
@@ -84,10 +87,12 @@ end Gamma
 /-! ### Beta (`beta.rs`) -/
 namespace Beta
 def valid (alpha beta : α) : Bool := !(decide (alpha ≤ 0) || decide (beta ≤ 0))
-/-- `if !(0. ..=1.).contains(&x) { 0. } else { x.powf(α - 1.) * (1. - x).powf(β - 1.) / beta(α, β) }` -/
+/-- `if !(0. ..=1.).contains(&x) { 0. } else { (xlogy(α - 1., x) + xlogy(β - 1., 1. - x) + ln_gamma(α + β)
+- ln_gamma(α) - ln_gamma(β)).exp() }` (log space since F48) -/
 def pdf (F : Fns α) (alpha beta x : α) : α :=
   if (0 : α) ≤ x ∧ x ≤ 1 then
-    (Transc.pow x (alpha - 1) * Transc.pow (1 - x) (beta - 1)) / betaOf F alpha beta
+    Transc.exp ((((xlogy (alpha - 1) x + xlogy (beta - 1) (1 - x)) + F.lnGamma (alpha + beta))
+      - F.lnGamma alpha) - F.lnGamma beta)
   else 0
 def mean (alpha beta : α) : α := alpha / (alpha + beta)
 /-- `(α * β) / ((α + β).powi(2) * (α + β + 1.))` -/
@@ -99,12 +104,12 @@ namespace ChiSquared
 /-- `assert!(dof > 0)` -/
 def valid (dof : Nat) : Bool := decide (0 < dof)
 /-- `if (dof == 1 && x <= 0.) || (x < 0.) { 0. } else { let half_k = dof as f64 / 2.;
-1. / (2_f64.powf(half_k) * gamma(half_k)) * x.powf(half_k - 1.) * (-x / 2.).exp() }` -/
+(xlogy(half_k - 1., x) - x / 2. - half_k * 2_f64.ln() - ln_gamma(half_k)).exp() }` (log space since F49) -/
 def pdf (F : Fns α) (dof : Nat) (x : α) : α :=
   if (dof = 1 ∧ x ≤ 0) ∨ x < 0 then 0
   else
     let halfK : α := (dof : α) / two
-    ((1 / (Transc.pow two halfK * F.gamma halfK)) * Transc.pow x (halfK - 1)) * Transc.exp ((-x) / two)
+    Transc.exp (((xlogy (halfK - 1) x - x / two) - halfK * Transc.ln two) - F.lnGamma halfK)
 def mean (dof : Nat) : α := (dof : α)
 /-- `self.mean() * 2.` -/
 def var (dof : Nat) : α := (dof : α) * two
